@@ -8,12 +8,12 @@ ABS = "exhaustive abstract interpretation over a complete finite quotient"
 CLAIMED = {
     "C01": dict(
         technique="static analysis: path-recording abstract interpretation of the operator source over opaque order-only version tokens (finite quotient of order types), checked against interval-set denotations",
-        text="Complete within the bound: every ordered pair of canonical specifiers (empty, both universal spellings, ranges, unions) over K distinct bound values (quick K=3, thorough K=4) x {&,|} and every ~a is abstractly interpreted from the current source through the modelled operator protocol; the result's denotation on the doubled line must equal and/or/not of the operands'. Also dispatch totality, closure of bounds, and the PEP 440 operator->bounds shape table of _from_pkg_specifier. Decides the set-algebra behaviour for operands with <= K bound values; larger operands only by the closure/induction argument (stated, not checked).",
-        note="trusts: Version order is total (PEP 440); interpreter model of Python operator protocol/dataclasses; versions only compared (enforced: any other use aborts with exit 2)",
+        text="Complete within the bound: every ordered pair of canonical specifiers (empty, both universal spellings, ranges, unions) over K distinct bound values (quick K=3, thorough K=4) x {&,|} and every ~a is abstractly interpreted from the current source through the modelled operator protocol; the result's denotation on the doubled line must equal and/or/not of the operands', and so must the complement of every pair result (depth 2). Also dispatch totality, closure of bounds, and the PEP 440 operator->bounds shape table of _from_pkg_specifier. Decides the set-algebra behaviour for operands with <= K bound values; larger operands only by the closure/induction argument (stated, not checked).",
+        note="trusts: Version order is total (PEP 440); interpreter model of Python operator protocol/dataclasses/lru_cache; versions only compared — enforced: if the slice uses a version token in any other way the check re-runs on concrete mixed-shape version pools (with equal-but-differently-spelled twins) and says so in the evidence",
         ref="DESIGN.md §4 C01", thorough=True),
     "C05": dict(
         technique="static analysis: abstract interpretation over order-only tokens; canonical-shape, interpreted-__eq__ and is_empty/is_any obligations on every result; class-table facts",
-        text="Complete within the bound K (quick 3, thorough 4): every result of &,|,~ over all operand pairs is in canonical shape, compares equal (interpreted __eq__, both directions) to the canonical representative of its set and unequal to all one-point neighbours, the full operand x operand == matrix is the identity relation on sets, and is_empty()/is_any() are exact.",
+        text="Complete within the bound K (quick 3, thorough 4): every result of &,|,~ over all operand pairs is in canonical shape, compares equal (interpreted __eq__, both directions) to the canonical representative of its set and unequal to all one-point neighbours, the full operand x operand == matrix is the identity relation on sets, is_empty()/is_any() are exact, and results of *parsing* (comma folds, ||, contradictory and differently-spelled clause sequences) are canonical and exact on a candidate grid.",
         note="trusts: total order on versions; dataclass __eq__ modelled from field specs read from source",
         ref="DESIGN.md §4 C05", thorough=True),
     "C14": dict(
@@ -28,7 +28,7 @@ CLAIMED = {
         ref="DESIGN.md §4 C19", thorough=True),
     "C02": dict(
         technique="static analysis: bounded abstract interpretation of the marker operators from source (packaging replaced by a PEP 440/508 model), denotations as bitmasks over an environment grid; plus syntax-directed polarity and discarded-result rules",
-        text="Necessary conditions, bounded: all ordered pairs of a level-0 atom vocabulary (exhaustive), all atom-group pairs, a structured shared-child family and a seeded sample of compound pairs must evaluate as the conjunction/disjunction of the operands on every environment of the grid; Any/Empty identities; evaluate() of atoms and groups equals the PEP 508 meaning; polarity facts of both `of` fix-points hold on all paths; no computed result is dropped. Arbitrary-depth trees, termination and the caches are NOT decided here.",
+        text="Necessary conditions, bounded: all ordered pairs of a level-0 atom vocabulary (exhaustive), all atom-group pairs, a structured shared-child family and a seeded sample of compound pairs must evaluate as the conjunction/disjunction of the operands on every environment of the grid; Any/Empty identities; evaluate() of atoms and groups equals the PEP 508 meaning (incl. pre-/post-release interpreters); operators leave their operands unchanged; polarity facts of both `of` fix-points hold on all paths; no computed result is dropped. Arbitrary-depth trees, termination and the caches are NOT decided here.",
         note="trusts: vsa/pkgmodel.py (PEP 440 ordering / operator table) standing in for packaging; vocabulary of vsa/markexplore.py",
         ref="DESIGN.md §4 C02", thorough=True),
     "C07": dict(
@@ -48,17 +48,17 @@ CLAIMED = {
         ref="DESIGN.md §4 C15", thorough=True),
     "C08": dict(
         technique="static analysis: partial evaluation of EnvSpec._evaluate_python from source with requires_python symbolic (forking symbolic booleans); residual decision table vs the PEP 425/3149/703 rule table",
-        text="Complete over the static tag vocabulary: for every (implementation, python tag, abi tag) the residual is None or `None if empty(TEMPLATE & requires_python) else score`; the TEMPLATE's admitted interpreters (PEP 440 model over majors 2-4 x minors 0-22) and the score equal the rule table C08 states; requires_python can only flow into that emptiness guard (operation whitelist); compatibility() is the max over combinations. Non-emptiness of TEMPLATE & requires_python itself is C01/C05's.",
+        text="Complete over the static tag vocabulary: for every (implementation, python tag, abi tag) the residual is None or `None if empty(TEMPLATE & requires_python) else score`; the TEMPLATE's admitted interpreters (PEP 440 model over majors 2-4 x minors 0-22) and the score equal the rule table C08 states; requires_python can only flow into that emptiness guard (operation whitelist; isinstance/attribute inspection of it aborts the symbolic clause with a note); on a grid of 18 (thorough 28) concrete requires_python values aligned with the tag minors every tag triple is accepted iff the rule table and the admitted interpreters intersect, with the right score; compatibility() is the max over combinations. Non-emptiness of TEMPLATE & requires_python itself is C01/C05's.",
         note="trusts: rule table transcribed from C08/PEP 425/3149/703; PEP 440 model for template meaning",
         ref="DESIGN.md §4 C08", thorough=False),
     "C09": dict(
         technique="static analysis: abstract interpretation of Platform.compatible_tags and the Arch tables from source for every platform of the property's grid, compared with an independent PEP 600/656/macOS tag generator",
-        text="Complete over the property's grid (manylinux 2.5..2.50 x 9 architectures, musllinux 1.1..1.5 x 8, macOS 10.4..10.16 and 11..30, Windows x 3): exact tag sequence for manylinux/macOS (fat* ignored), sets for musllinux/Windows; architecture floors and binary formats per enum member; _evaluate_platform scoring strictly decreasing with `any` last.",
+        text="Complete over the property's grid (manylinux 2.5..2.50 x 9 architectures, musllinux 1.1..1.5 x 8, macOS 10.4..10.16 and 11..30, Windows x 3): exact tag sequence for manylinux/macOS (fat* ignored), sets for musllinux/Windows; architecture floors and binary formats per enum member; _evaluate_platform scoring strictly decreasing with `any` last and stable across repeated evaluation; a second pass in another order and a re-read of every earlier tag list (no order dependence, no retroactive change).",
         note="trusts: the PEP rule generator in vsa/props/c09.py (written from the PEPs as C09 states them)",
         ref="DESIGN.md §4 C09", thorough=False),
     "C16": dict(
         technique="static analysis: abstract interpretation of EnvSpec.compare / compatible_tags from source over a spec grid (order-theoretic laws, tag-set nesting) + symbolic residual form of _evaluate_python for requires_python monotonicity",
-        text="Over the grid (requires_python x 18 platforms x 4 implementations, all ordered pairs): compare is reflexive, INCOMPATIBLE symmetric, never HIGHER both ways, and LOWER_OR_EQUAL/HIGHER imply the interpreted tag sets are nested; every _evaluate_python residual uses requires_python only as a negative emptiness guard with an independent score (monotone given C01); tag sets are nested along consecutive releases of every family/architecture of C09's grid.",
+        text="Over the grid (requires_python x 18 platforms x 4 implementations, all ordered pairs): compare is reflexive, INCOMPATIBLE symmetric, never HIGHER both ways, and LOWER_OR_EQUAL/HIGHER imply the interpreted tag sets are nested; every _evaluate_python residual uses requires_python only as a negative emptiness guard with an independent score (monotone given C01); tag sets are nested along consecutive releases of every family/architecture of C09's grid (evaluated in shuffled order and re-read at the end); on the concrete requires_python grid, widening never loses a tag triple.",
         note="trusts: PEP 440 model; specifier algebra exactness (C01/C05)",
         ref="DESIGN.md §4 C16", thorough=True),
     "C18": dict(
@@ -88,7 +88,7 @@ CLAIMED = {
         ref="DESIGN.md §4 C17", thorough=False),
     "C03": dict(
         technique="static analysis: operator tables extracted from the AST vs the PEP 508 vocabulary; bounded abstract interpretation of parse_marker/_build_markers/evaluate from source on texts generated from a PEP 508 grammar, against an independent grammar + semantics",
-        text="Table and glue clauses + bounded behaviour: _operators / _op_map / invert_map / _op_reflect_map agree with PEP 508 (canonical comparison, complement, converse); for ~2000 generated marker texts (atoms in both operand orders, and/or/parentheses, precedence-sensitive forms) the interpreted parse_marker denotes the PEP 508 meaning on the environment grid and evaluate() agrees, incl. context defaults, PEP 685 normalisation and set-valued extras/dependency_groups. Reference = PEP 508 semantics (own grammar + PEP 440 model), NOT packaging's code; three known findings (literal-on-the-left atoms with operators lacking a converse).",
+        text="Table and glue clauses + bounded behaviour: _operators / _op_map / invert_map / _op_reflect_map agree with PEP 508 (canonical comparison, complement, converse); for ~2000 generated marker texts (atoms in both operand orders, and/or/parentheses, precedence-sensitive forms) the interpreted parse_marker denotes the PEP 508 meaning on the environment grid and evaluate() agrees, incl. context defaults, PEP 685 normalisation, set-valued extras/dependency_groups and pre-release interpreters; the VARIABLE token rule installed into the tokenizer matches exactly the marker variable names. Reference = PEP 508 semantics (own grammar + PEP 440 model), NOT packaging's code; three known findings (literal-on-the-left atoms with operators lacking a converse).",
         note="trusts: vsa/markdomain.py grammar/semantics and vsa/pkgmodel.py in place of packaging",
         ref="DESIGN.md §4 C03", thorough=True),
     "C10": dict(
@@ -98,7 +98,7 @@ CLAIMED = {
         ref="DESIGN.md §4 C10", thorough=False),
     "C13": dict(
         technique="static analysis: class-table rules (dataclass eq/hash field sets, hand-written __eq__/__hash__), def-use classification of compare=False fields, abstract interpretation of == and a structural hash model over the specifier operand domain and the explored marker universe",
-        text="Class-table complete + bounded ABSINT: every dataclass compares and hashes the same fields; on all operand pairs over K tokens (both universal spellings) == is reflexive, symmetric, transitive and equal objects have equal hashes (hash formulas modelled structurally); equal markers of the explored universe (incl. reversed-spelling and cache-carrying twins) denote the same environments; every compare=False field is a cache or presentation hint. One known finding (MarkerExpression.reversed is semantic for in/not in/~=/===).",
+        text="Class-table complete + bounded ABSINT: every dataclass compares and hashes the same fields; on all operand pairs over K tokens (both universal spellings) == is reflexive, symmetric, transitive and equal objects have equal hashes (hash formulas modelled structurally); equal markers of the explored universe (incl. reversed-spelling and cache-carrying twins) denote the same environments; every compare=False field is a cache or presentation hint; if __eq__/__hash__ inspect versions beyond comparison the specifier matrix is recomputed on concrete pools with twin spellings. One known finding (MarkerExpression.reversed is semantic for in/not in/~=/===).",
         note="trusts: structural hash model (equal only if same formula on equal parts)",
         ref="DESIGN.md §4 C13", thorough=True),
 }
